@@ -140,6 +140,19 @@ pub fn emit(sh: &mut Shards, st: &mut Stats, case: &Case, source: &str) {
             }
         }
     }
+    for s in &case.stmts {
+        for e in &s.entries {
+            if !e.details.is_empty() {
+                let multi = if e.details.len() >= 2 { "batch of 2+ TxDtls" } else { "single TxDtls" };
+                st.count(&match &e.batch {
+                    camtgen::BatchHdr::Consistent => format!("btch_header:{}:NbOfTxs = number of TxDtls", multi),
+                    camtgen::BatchHdr::Absent => format!("btch_header:{}:no Btch element", multi),
+                    camtgen::BatchHdr::Count(n) if *n < e.details.len() => format!("btch_header:{}:NbOfTxs smaller than the number of TxDtls", multi),
+                    camtgen::BatchHdr::Count(_) => format!("btch_header:{}:NbOfTxs larger than the number of TxDtls", multi),
+                });
+            }
+        }
+    }
     if case.cfg.new_to_old {
         st.count("row_order:new_to_old");
     } else {
@@ -252,9 +265,9 @@ fn seed_cases() -> Vec<Case> {
     let d = |day: u32| XDate { y: 2021, m: 10, d: day, dttm: None };
     let cfg = Cfg { account: "Assets:Okane Bank".into(), operator: Some("Okane Bank (fee)".into()), new_to_old: false, commodity: "CHF".into(), precisions: vec![("CHF".into(), 2), ("EUR".into(), 2)] };
     let plain = |m: i64, s: u32, credit: bool, bk: u32, vd: Option<u32>, k: u32| Entry {
-        amt: chf(m, s), credit, booking: d(bk), value: vd.map(d), charges: None, dtls_element: true, details: vec![], info: format!("N{}", k), frag: Frag::default(),
+        amt: chf(m, s), credit, booking: d(bk), value: vd.map(d), charges: None, dtls_element: true, details: vec![], info: format!("N{}", k), frag: Frag::default(), batch: BatchHdr::Consistent,
     };
-    let det = |m: i64, s: u32, credit: bool, k: &str| Detail { reference: Some(format!("20211031/{}", k)), amt: chf(m, s), credit, details: None, charges: None, info: Some(format!("T{}", k)), frag: Frag { payee: Some("Jiro Okane".into()), account: Some("Expenses:House".into()), pending: false } };
+    let det = |m: i64, s: u32, credit: bool, k: &str| Detail { reference: Some(format!("20211031/{}", k)), amt: chf(m, s), credit, details: None, charges: None, info: Some(format!("T{}", k)), frag: Frag { payee: Some("Jiro Okane".into()), account: Some("Expenses:House".into()), pending: false }, parties: None };
     let mut e3 = plain(2000, 0, false, 3, Some(3), 3);
     e3.details = vec![det(1880, 0, false, "3/1"), det(120, 0, false, "3/2")];
     let mut e7 = plain(52, 0, false, 8, Some(7), 7);
@@ -292,7 +305,7 @@ pub fn run(o: &Opts) {
     let mut st = Stats::new();
     // smaller files in the thorough tier: coqc memory grows with the size of the case literal
     let mut sh = Shards::new(&o.out, if o.thorough { o.shards * 6 } else { o.shards }, HEADER);
-    st.rule = "Camt053 XML generated from statement data (1-2 statements of 0-8 entries; credits and debits; entries without details, with one detail, batches of 2-4 details summing to the entry; included / not-included / zero / credit charge records on entries and details with TxAmt explaining included charges; value date absent / equal / different, Dt and DtTm; both row orders; OPBD/CLBD in either order; opening balance of exactly 0 and closing balance of exactly 0 in about 1/8 of the statements each; per-record rewrite rules giving payee / account / pending) plus inconsistent variants (wrong closing balance, batch not summing, unexplained charge, missing balance), foreign-currency details with exchange rates and error variants; run through import(Format::IsoCamt053) + to_double_entry, printed as ImportCmd does and fed with a funding transaction to report::process; non-trivial = at least 2 entries and at least one batch or non-zero charge; distinct by XML + configuration".into();
+    st.rule = "Camt053 XML generated from statement data (1-2 statements of 0-8 entries; credits and debits; entries without details, with one detail, batches of 2-4 details summing to the entry, whose NtryDtls has a Btch header with NbOfTxs = the number of TxDtls (half), no Btch element at all (a quarter), or an NbOfTxs that is smaller (possibly 0) or larger than the number of TxDtls (the importer does not read the field: every TxDtls is a record); included / not-included / zero / credit charge records on entries and details with TxAmt explaining included charges; value date absent / equal / different, Dt and DtTm; both row orders; OPBD/CLBD in either order; opening balance of exactly 0 and closing balance of exactly 0 in about 1/8 of the statements each; per-record rewrite rules giving payee / account / pending) plus inconsistent variants (wrong closing balance, batch not summing, unexplained charge, missing balance), foreign-currency details with exchange rates and error variants; run through import(Format::IsoCamt053) + to_double_entry, printed as ImportCmd does and fed with a funding transaction to report::process; non-trivial = at least 2 entries and at least one batch or non-zero charge; distinct by XML + configuration".into();
     st.assumptions.push("quick-xml/serde deserialisation is an oracle: the model starts from the statement data the XML was written from (xmlnode is a private module)".into());
     st.assumptions.push("amount mantissas below 10^7 with scale <= 4: every Decimal sum is exact; no negative-zero amount text in the XML".into());
     st.assumptions.push("the rewrite-rule extractor is an oracle here (C17): each record's fragment is fixed by one anchored rule on its additional info".into());
